@@ -82,7 +82,7 @@ TYPE_POOL = (
     + [refs(n, TB("Str")) for n in (1, 1, 2)] + [refs(1, TB("Str"), True)]
     + [refs(n, TB("String")) for n in (0, 1)] + [refs(1, TB("String"), True)]
     + [refs(n, TB("Nd")) for n in (0, 1, 2)] + [refs(1, TB("Nd"), True)]
-    + [refs(n, TB("Opt")) for n in (0, 0, 1)]
+    + [refs(n, TB("Opt")) for n in (0, 0, 0, 0, 0, 1, 1)]
     + [refs(n, TB("Gen")) for n in (0, 1)] + [refs(1, TB("Gen"), True)]
     + [refs(n, TB("GenD")) for n in (0, 1, 2)]
     + [TR(False, TS(TB(b))) for b in ("Int", "Int", "Nd", "Gen", "GenD")] + [TR(True, TS(TB("Int")))]
@@ -275,7 +275,9 @@ def gen_subpat(rng, t, fresh, refutable_bias=0.75):
         elif b == "Nd":
             opts = [("path", "Nd::", rng.choice("AB")), ("path", "Nd::", "A")]
         elif b == "Opt":
-            opts = [("path", "", "None"), ("ts", "Some", [("lit", rng.choice(DOM_INT[:3]))]), ("ts", "Some", [("wild",)]),
+            # the bare unit variant `None` parses as an identifier pattern, but it is refutable
+            opts = [("path", "", "None"), ("path", "", "None"), ("path", "", "None"),
+                    ("ts", "Some", [("lit", rng.choice(DOM_INT[:3]))]), ("ts", "Some", [("wild",)]),
                     ("ts", "Some", [("range", 0, 1, True)]), ("or", [("path", "", "None"), ("ts", "Some", [("lit", 0)])])]
     irrefutable = [("wild",), ("wild",), ("bind", fresh())]
     cands = (opts if rng.random() < refutable_bias and opts else irrefutable)
